@@ -38,6 +38,11 @@ inductive PyExpr
   | ifExp (c t e : PyExpr)
   | lambda (params : List String) (body : PyExpr)
   | other (tag : String)
+  /- the next three are never produced by the serialiser: they are the only places where the
+     transpiler model puts *program-supplied* text (C18) -/
+  | cstrN (cps : List Nat)                       -- a string constant given by code points
+  | pname (pre : String) (s : List Nat)          -- identifier = fixed prefix ++ program characters
+  | pattr (e : PyExpr) (pre : String) (s : List Nat)   -- attribute whose name is prefix ++ program characters
   deriving Repr
 
 inductive PyStmt
@@ -48,6 +53,7 @@ inductive PyStmt
   | whileS (c : PyExpr) (b : List PyStmt)
   | forS (target : PyExpr) (iter : PyExpr) (b : List PyStmt)
   | defS (name : String) (params : List (String × Option PyExpr)) (b : List PyStmt)
+  | defP (pre : String) (s : List Nat) (params : List (String × Option PyExpr)) (b : List PyStmt)
   | ret (v : Option PyExpr)
   | brk
   | cont
